@@ -283,6 +283,14 @@ def check_C12(tier, seed):
     # same denotation => byte-identical generated code, whatever the layout / spelling
     for gi, lst in by_g.items():
         ref = lst[0]
+        if ref[2] is None:
+            # the grammar is inside the documented syntax and restrictions (the generator's well-formedness rules are the
+            # documented ones), its text was read into the right structure - and then the compiler turns it down
+            msg = ref[3]
+            out.violation("c12:gen-rejected:%s" % hashlib.sha256(ref[1].encode()).hexdigest()[:10],
+                          "a grammar that follows the syntax reference is read correctly but rejected by the compiler: %s" % (
+                              [build.unhex(x) if isinstance(x, str) and len(x) > 8 and all(ch in "0123456789abcdef" for ch in x) else x for x in (msg or [])][:4]),
+                          {"grammar_text": ref[1], "result": list(msg) if msg else None})
         for (ri, text, code, r) in lst[1:]:
             if (code is None) != (ref[2] is None):
                 out.violation("c12:gen-outcome:%d" % gi, "equal grammars in different spelling: one compiles, the other is rejected (%s vs %s)" % (ref[3], r),
